@@ -3,12 +3,13 @@
     The runner instantiates the abstract ETag function with the identity on
     contents (injective), i.e. a tag is "the content it was computed from".
 
-    Clock of a run: starts at 0 and advances by 1 after every micro-step, so that
-    no two clock reads return the same instant (as with the nanosecond wall clock
-    of the implementation, whose lease bodies — and therefore ETags — never
-    repeat); TTLs are +/- [big_ttl], far more than the length of any run, so a
-    lease is live or expired by the sign of its owner's TTL alone.  Timestamps
-    leave the model only as the bit "live" (not expired). *)
+    Clock of a run: explicit.  It starts at 0 (nanoseconds) and moves only by
+    the [tick] elements of the schedule — exactly as the implementation's clock
+    does in the harness (a synctest bubble: time.Now() is frozen while code runs
+    and jumps by the scheduler's sleeps).  TTLs are arbitrary integers (ns), so
+    the remaining validity of a lease at the moment of any request is exact and
+    boundary values (expired by 1 ns, exactly now, 1 ns left, ...) are reachable.
+    Times leave the model relative to the start of the run. *)
 From Coq Require Import List ZArith NArith Bool Arith.
 From LS Require Import Base.Sx Lease.Store Lease.Client.
 Import ListNotations.
@@ -19,8 +20,6 @@ Definition lease_eqb (a b : lease) : bool :=
 
 Definition tag := lease.
 Definition tag_of (l : lease) : tag := l.
-
-Definition big_ttl : Z := 1000000.
 
 (** ** Running a schedule *)
 
@@ -40,13 +39,11 @@ Definition op_code (o : op) : Z :=
 Definition op_of_code (z : Z) : op :=
   if Z.eqb z 0 then OpAcquire else if Z.eqb z 1 then OpRenew else OpRelease.
 
-Definition live_bit (now exp : Z) : sx := sxB (negb (Z.ltb exp now)).
-
-Definition sx_result (now : Z) (r : result tag) : sx :=
+Definition sx_result (r : result tag) : sx :=
   match r with
-  | ROk h => SL [SA 0; SA (l_gen (h_rec h)); sxN (l_owner (h_rec h)); live_bit now (l_exp (h_rec h))]
+  | ROk h => SL [SA 0; SA (l_gen (h_rec h)); sxN (l_owner (h_rec h)); SA (l_exp (h_rec h))]
   | RReleased => SL [SA 0]
-  | RExists o e => SL [SA 1; sxN o; live_bit now e]
+  | RExists o e => SL [SA 1; sxN o; SA e]
   | RExistsEmpty => SL [SA 1; SA 0; SA 0]
   | RRequired => SL [SA 2]
   | RETagRequired => SL [SA 3]
@@ -55,10 +52,10 @@ Definition sx_result (now : Z) (r : result tag) : sx :=
   | ROther => SL [SA 6]
   end.
 
-Definition sx_store (now : Z) (s : store lease) : sx :=
+Definition sx_store (s : store lease) : sx :=
   match s with
   | None => SL []
-  | Some l => SL [SA (l_gen l); sxN (l_owner l); live_bit now (l_exp l)]
+  | Some l => SL [SA (l_gen l); sxN (l_owner l); SA (l_exp l)]
   end.
 
 Fixpoint set_nth {A} (i : nat) (v : A) (l : list A) : list A :=
@@ -68,8 +65,9 @@ Fixpoint set_nth {A} (i : nat) (v : A) (l : list A) : list A :=
   | x :: tl, S i' => x :: set_nth i' v tl
   end.
 
+(** a completed call: client, op, result, clock at completion *)
 Definition event (i : nat) (opc : Z) (now : Z) (r : result tag) : sx :=
-  SL [SA (Z.of_nat i); SA opc; sx_result now r].
+  SL [SA (Z.of_nat i); SA opc; sx_result r; SA now].
 
 (** client i runs on by itself — entering calls, reading the clock — until its
     next storage request (where the harness parks it) or the end of its program *)
@@ -100,7 +98,7 @@ Fixpoint advance (fuel : nat) (i : nat) (st : rst) : rst :=
                 let o := cstep tag_of lease_eqb (r_now st) (r_store st) (rc_cl c) in
                 let c' := mkRc (o_client o) (rc_prog c) (rc_cur c) in
                 advance fuel' i
-                  (mkRst (o_store o) (r_now st + 1) (set_nth i c' (r_cls st))
+                  (mkRst (o_store o) (r_now st) (set_nth i c' (r_cls st))
                          (match o_result o with
                           | Some r => event i (rc_cur c) (r_now st) r :: r_events st
                           | None => r_events st
@@ -121,7 +119,7 @@ Definition pick (fuel : nat) (i : nat) (st : rst) : rst :=
         let o := cstep tag_of lease_eqb (r_now st) (r_store st) (rc_cl c) in
         let c' := mkRc (o_client o) (rc_prog c) (rc_cur c) in
         advance fuel i
-          (mkRst (o_store o) (r_now st + 1) (set_nth i c' (r_cls st))
+          (mkRst (o_store o) (r_now st) (set_nth i c' (r_cls st))
                  (match o_result o with
                   | Some r => event i (rc_cur c) (r_now st) r :: r_events st
                   | None => r_events st
@@ -154,27 +152,37 @@ Fixpoint start_all (afuel : nat) (n : nat) (i : nat) (st : rst) : rst :=
 
 Definition mk_client (x : sx) : rc :=
   let own := asN (nthx 0 x) in
-  let ttl := if asB (nthx 1 x) then big_ttl else - big_ttl in
+  let ttl := asZ (nthx 1 x) in
   mkRc (mkClient own ttl PIdle None) (map (fun z => op_of_code (asZ z)) (asL (nthx 2 x))) 0.
 
+(** one element of a schedule: a number i = "execute the parked request of client i";
+    a one-element list (d) = "the clock advances by d ns" (d < 0 is ignored: the clock is monotone) *)
+Definition sched_step (afuel : nat) (st : rst) (x : sx) : rst :=
+  match x with
+  | SA z => pick afuel (Z.to_nat z) st
+  | SL l =>
+      let d := asZ (nth 0 l (SA 0)) in
+      if Z.leb 0 d then mkRst (r_store st) (r_now st + d) (r_cls st) (r_events st) else st
+  end.
+
 (** input  [ clients ; schedule ]
-      clients  = list of [owner(>=1); ttl sign (1 live, 0 already expired); program (0 acquire,1 renew,2 release)]
-      schedule = list of client indices: whose parked request is executed next
+      clients  = list of [owner(>=1); TTL in ns (any sign); program (0 acquire,1 renew,2 release)]
+      schedule = list of: client index (whose parked request is executed next) | (d) clock tick of d ns
     output [ events ; store ]
-      events = calls in order of completion: [client; op; result]
-        result: (0 gen owner live) acquire/renew ok | (0) release ok | (1 owner live) lease exists
+      events = calls in order of completion: [client; op; result; time of completion]
+        result: (0 gen owner expiresAt) acquire/renew ok | (0) release ok | (1 owner expiresAt) lease exists
                 (1 0 0) lease exists (empty) | (2) lease required | (3) etag required | (4) not held
                 (5) already released | (6) other error
-      store  = () | (gen owner live) *)
+      store  = () | (gen owner expiresAt)
+    all times in ns since the start of the run *)
 Definition lease_run (x : sx) : sx :=
   let cls := map mk_client (asL (nthx 0 x)) in
-  let sched := map (fun z => Z.to_nat (asZ z)) (asL (nthx 1 x)) in
   let ops := fold_right (fun c n => (length (rc_prog c) + n)%nat) O cls in
   let afuel := (4 * ops + 4)%nat in
   let st0 := start_all afuel (length cls) 0 (mkRst None 0 cls []) in
-  let st1 := fold_left (fun st i => pick afuel i st) sched st0 in
+  let st1 := fold_left (sched_step afuel) (asL (nthx 1 x)) st0 in
   let st2 := drain (3 * ops + 3) afuel st1 in
-  SL [SL (rev (r_events st2)); sx_store (r_now st2) (r_store st2)].
+  SL [SL (rev (r_events st2)); sx_store (r_store st2)].
 
 (** ** The property as a test on an observed trace (spec-level oracle)
 
@@ -184,7 +192,8 @@ Definition lease_run (x : sx) : sx :=
     release), whether that lease was taken over, and the last record written.
 
     lease_mutex_ok   1 = ok
-                     2 = a client acquired/renewed while another client holds a live lease
+                     2 = a client acquired/renewed at an instant t at which another client holds a
+                         lease that is not expired at t (ExpiresAt >= t, i.e. not [t.After(ExpiresAt)])
                      3 = a client whose lease was taken over renewed or released successfully
                      4 = an acquire over an existing record did not increase the generation
     lease_gen_strict_ok
@@ -192,7 +201,7 @@ Definition lease_run (x : sx) : sx :=
                      5 = it fails, and only in the shape: holder released (no object left),
                          next acquirer with another owner starts again at generation 1   (F6)
                      0 = it fails in some other shape *)
-Record oc := mkOc { oc_id : Z; oc_held : option (Z * bool); oc_revoked : bool }.
+Record oc := mkOc { oc_id : Z; oc_held : option (Z * Z) (* generation, ExpiresAt *); oc_revoked : bool }.
 
 Record ost := mkOst {
   os_cls : list oc;
@@ -215,9 +224,10 @@ Fixpoint oc_set (v : oc) (l : list oc) : list oc :=
   | x :: tl => if Z.eqb (oc_id x) (oc_id v) then v :: tl else x :: oc_set v tl
   end.
 
-Definition other_live (c : Z) (l : list oc) : bool :=
+(** another client holds a lease that is unexpired at instant t (leaser.go: expired iff t.After(ExpiresAt)) *)
+Definition other_live (c : Z) (t : Z) (l : list oc) : bool :=
   existsb (fun x => negb (Z.eqb (oc_id x) c) &&
-                    match oc_held x with Some (_, true) => true | _ => false end) l.
+                    match oc_held x with Some (_, e) => negb (Z.ltb e t) | None => false end) l.
 
 (** every other client that holds something is now taken over *)
 Definition revoke_others (c : Z) (l : list oc) : list oc :=
@@ -234,6 +244,7 @@ Definition ostep (s : ost) (ev : sx) : ost :=
   let c := asZ (nthx 0 ev) in
   let opc := asZ (nthx 1 ev) in
   let r := nthx 2 ev in
+  let t := asZ (nthx 3 ev) in
   let ok := Z.eqb (asZ (nthx 0 r)) 0 in
   if negb ok then s else
   let me := oc_get c (os_cls s) in
@@ -244,8 +255,8 @@ Definition ostep (s : ost) (ev : sx) : ost :=
   else
     let g := asZ (nthx 1 r) in
     let owner := asZ (nthx 2 r) in
-    let lv := asB (nthx 3 r) in
-    let s1 := if other_live c (os_cls s) then flag s 2 else s in
+    let lv := asZ (nthx 3 r) in
+    let s1 := if other_live c t (os_cls s) then flag s 2 else s in
     if Z.eqb opc 1 then
       (* renew succeeded *)
       let s2 := if oc_revoked me then flag s1 3 else s1 in
